@@ -1,12 +1,28 @@
 """Load balancing: LoadBalancer with every strategy of strategies.py (round robin, weighted RR, random, least
 connections, weighted least connections, least response time, IP hash, consistent hash with string keys, power of
 two choices), HealthChecker probing backends of which one goes down (and comes back), dynamic membership
-(remove/add backend, manual mark_unhealthy/healthy) and RandomRouter in front of LBs or backends."""
+(remove/add backend, manual mark_unhealthy/healthy) and RandomRouter in front of LBs or backends.
+
+Coverage notes (widened):
+  * every constructor parameter: LoadBalancer(backends=[...]) as well as add_backend(weight), on_no_backend,
+    HealthChecker interval / timeout / thresholds / check_event_type, LeastResponseTime alpha (incl. 1.0),
+    ConsistentHash virtual_nodes 1..300, custom and default key extractors with every default metadata key
+    (client_id, client_ip, session_id, user_id, key) and requests WITHOUT a key (round-robin fallback);
+  * a "bank" option: one LoadBalancer per strategy (all 11) over the same backends behind a RandomRouter, or
+    "tiered": a front LoadBalancer whose backends are the other LoadBalancers;
+  * every duration with `dur_ms` (probe interval vs probe timeout vs hang time vs outage length vs service time in
+    every order; outage / removal / re-add / manual marking / checker stop and restart instants lossy and > 1 s);
+  * 2-8 backends, all backends down at once, sustained overload on concurrency-1 servers with bounded and
+    unbounded queues, same-instant bursts, zero service time;
+  * RoundRobin.reset(), LoadBalancer.record_failure(), HealthChecker.stop() / start() again while the old cycle is
+    still pending.
+No hard-coded size constants in load_balancer/*.py (the virtual node count is a parameter).
+"""
 from __future__ import annotations
 
 import random
 
-from hv.scenarios.base import T, seed_all, stats_of, sub_seed
+from hv.scenarios.base import T, dur_ms, seed_all, stats_of, sub_seed
 
 NAME = "loadbalancer"
 MODEL = None
@@ -16,49 +32,85 @@ COMPONENTS = ["LoadBalancer", "HealthChecker", "RoundRobin", "WeightedRoundRobin
 
 STRATEGIES = ["rr", "wrr", "random", "leastconn", "wleastconn", "lrt", "iphash", "iphash-key", "chash", "chash-key",
               "p2c"]
+KEY_FIELDS = ["client_id", "client_ip", "session_id", "user_id", "key", "mixed", "mixed"]
 
 
-def _lb_cfg(rng, n_backends):
+def _lb_cfg(rng, n_backends, strategy=None, health_p=0.8):
+    interval = dur_ms(rng, 20, rng.choice([400, 400, 1500]))
+    timeout = dur_ms(rng, 1, max(1, interval - 1))
+    if timeout >= interval:                                # the constructor requires timeout < interval
+        timeout = round(interval * 0.5, 3)
     return {
-        "strategy": rng.choice(STRATEGIES),
-        "vnodes": rng.choice([1, 3, 20, 100]),
-        "alpha_pct": rng.choice([10, 30, 100]),
-        "weights": [rng.randint(1, 3) for _ in range(n_backends)],
+        "strategy": strategy or rng.choice(STRATEGIES),
+        "vnodes": rng.choice([1, 3, 20, 100, 300]),
+        "alpha_pct": rng.choice([1, 10, 30, 100]),
+        "weights": [rng.choice([1, 1, 2, 3, 10]) for _ in range(n_backends)],
+        "init_backends": rng.random() < 0.25,              # LoadBalancer(backends=[...]) (+ add_backend for weights)
         "on_no_backend": rng.choice(["reject", "queue"]),
         "health": {
-            "enabled": rng.random() < 0.8,
-            "interval_ms": rng.choice([100, 200, 400]),
-            "timeout_ms": rng.choice([20, 50, 90]),
-            "healthy_thr": rng.randint(1, 2),
+            "enabled": rng.random() < health_p,
+            "interval_ms": interval,
+            "timeout_ms": timeout,
+            "healthy_thr": rng.randint(1, 3),
             "unhealthy_thr": rng.randint(1, 3),
-            "stop_ms": rng.choice([0, 0, 1500]),
+            "stop_ms": 0 if rng.random() < 0.6 else dur_ms(rng, 200, 2500),
+            "restart_ms": 0 if rng.random() < 0.5 else dur_ms(rng, 1, 800),   # start() again this long after stop
+            "etype": rng.choice(["health_check", "health_check", "ping"]),
         },
-        "remove_ms": rng.choice([0, 0, 600, 1100]),     # remove the last backend at this time ...
-        "readd_ms": rng.choice([0, 300, 700]),           # ... and add it again this much later (0 = never)
-        "manual_ms": rng.choice([0, 0, 500]),            # mark backend 0 unhealthy by hand, healthy 250 ms later
+        "remove_ms": 0 if rng.random() < 0.5 else dur_ms(rng, 100, 2500),   # remove the last backend at this time ...
+        "readd_ms": 0 if rng.random() < 0.3 else dur_ms(rng, 1, 1200),       # ... and add it again this much later
+        "manual_ms": 0 if rng.random() < 0.6 else dur_ms(rng, 100, 2500),   # mark backend 0 unhealthy by hand ...
+        "manual_len_ms": dur_ms(rng, 1, 1200),                               # ... and healthy this much later
+        "rr_reset_ms": 0 if rng.random() < 0.7 else dur_ms(rng, 100, 2500),  # RoundRobin.reset()
+        "fail_ms": [dur_ms(rng, 100, 2500) for _ in range(rng.choice([0, 0, 1, 3]))],   # lb.record_failure(backend 0)
     }
 
 
 def gen_cfg(rng):
-    n = rng.randint(2, 4)
+    long_run = rng.random() < 0.12
+    overload = (not long_run) and rng.random() < 0.25
+    n = rng.choice([2, 2, 3, 3, 4, 4, 5, 8])
     down = []
-    for _ in range(rng.randint(1, 2)):
-        start = rng.choice([200, 400, 800, 1200])
-        down.append({"backend": rng.randrange(n), "from_ms": start, "len_ms": rng.choice([150, 400, 900, 5000])})
-    n_lbs = rng.choice([1, 1, 2])
+    for _ in range(rng.randint(1, 3)):
+        down.append({"backend": rng.randrange(n), "from_ms": dur_ms(rng, 100, 2500),
+                     "len_ms": dur_ms(rng, 20, rng.choice([400, 1500, 5000]))})
+    if rng.random() < 0.15:
+        # everything down at once for a while
+        t0, ln = dur_ms(rng, 300, 2000), dur_ms(rng, 50, 800)
+        down = [{"backend": b, "from_ms": t0, "len_ms": ln} for b in range(n)]
+    mode = rng.choice(["single", "single", "two", "bank", "bank", "tiered"])
+    if mode == "single":
+        lbs = [_lb_cfg(rng, n)]
+    elif mode == "two":
+        lbs = [_lb_cfg(rng, n) for _ in range(2)]
+    elif mode == "bank":
+        lbs = [_lb_cfg(rng, n, strategy=st, health_p=0.3) for st in STRATEGIES]
+    else:
+        lbs = [_lb_cfg(rng, n, health_p=0.5) for _ in range(rng.randint(2, 4))]
+    svc_set = []
+    if rng.random() < 0.4:
+        svc_set = [dur_ms(rng, 0.5, rng.choice([20, 150]), zero=True) for _ in range(rng.randint(1, 4))]
+    n_src = rng.randint(2, 4)
     return {
         "n_backends": n,
         "backend_kind": rng.choice(["gen", "gen", "server"]),
         "svc_ms": [[rng.randint(1, 10), rng.randint(10, 60)] for _ in range(n)],
+        "svc_set_ms": svc_set,                    # non-empty: service times drawn from this list
         "conc": [rng.randint(1, 2) for _ in range(n)],
-        "qcap": rng.choice([0, 3, 10]),
-        "hang_ms": rng.choice([200, 1000, 10000]),
+        "qcap": rng.choice([0, 0, 1, 3, 10]),
+        "hang_ms": dur_ms(rng, 5, rng.choice([200, 1000, 10000])),
         "down": down,
-        "lbs": [_lb_cfg(rng, n) for _ in range(n_lbs)],
+        "lbs": lbs,
+        "tiered": mode == "tiered",               # a front LoadBalancer (strategy below) over the LBs
+        "front": _lb_cfg(rng, len(lbs), health_p=0.3),
         "router_direct": rng.random() < 0.4,      # an extra RandomRouter straight onto the backends
-        "sources": [{"rate": rng.choice([20, 40, 60, 100]), "poisson": rng.random() < 0.5,
-                     "keys": rng.choice([3, 17, 101])} for _ in range(rng.randint(2, 4))],
-        "end": rng.choice([2.0, 3.0, 4.0]),
+        "sources": [{"rate": rng.choice([300, 600] if (overload and rng.random() < 0.6) else [20, 40, 60, 100]),
+                     "poisson": rng.random() < 0.5, "keys": rng.choice([1, 3, 17, 101, 1009]),
+                     "key_field": rng.choice(KEY_FIELDS), "nokey_every": rng.choice([0, 0, 2, 5]),
+                     "bursts": [[dur_ms(rng, 50, 2500), rng.choice([3, 10, 40])]
+                                for _ in range(rng.choice([0, 0, 1, 2]))]}
+                    for _ in range(n_src)],
+        "end": rng.choice([8.0, 10.0]) if long_run else rng.choice([2.0, 3.0, 4.0, 2.05, 3.003]),
     }
 
 
@@ -95,7 +147,7 @@ def _strategy(lc):
 
 
 def build(cfg, seed):
-    from happysimulator.components.load_balancer import HealthChecker, LeastResponseTime, LoadBalancer
+    from happysimulator.components.load_balancer import HealthChecker, LeastResponseTime, LoadBalancer, RoundRobin
     from happysimulator.components.random_router import RandomRouter
     from happysimulator.components.server import Server
     from happysimulator.core.entity import Entity
@@ -107,9 +159,11 @@ def build(cfg, seed):
     seed_all(seed)
     end = cfg["end"]
     n = cfg["n_backends"]
+    svc_set = cfg.get("svc_set_ms") or []
 
     def is_down(idx, now_ns):
-        t_ms = now_ns // 1_000_000
+        # corpus cfgs of the old shape (no "tiered" key) used whole milliseconds
+        t_ms = now_ns / 1_000_000 if "tiered" in cfg else now_ns // 1_000_000
         for d in cfg["down"]:
             if d["backend"] == idx and d["from_ms"] <= t_ms < d["from_ms"] + d["len_ms"]:
                 return True
@@ -133,7 +187,7 @@ def build(cfg, seed):
             return self.active
 
         def handle_event(self, event):
-            if event.event_type == "health_check":
+            if event.event_type in ("health_check", "ping"):
                 self.probes += 1
             else:
                 k = event.context.get("key", "?")
@@ -146,8 +200,11 @@ def build(cfg, seed):
                 yield cfg["hang_ms"] / 1000.0
                 self.active -= 1
                 return None
-            lo, hi = cfg["svc_ms"][self.idx]
-            yield self.rng.randint(lo, hi) / 1000.0
+            if svc_set:
+                yield self.rng.choice(svc_set) / 1000.0
+            else:
+                lo, hi = cfg["svc_ms"][self.idx]
+                yield self.rng.randint(lo, hi) / 1000.0
             self.active -= 1
             self.served += 1
             return None
@@ -165,24 +222,27 @@ def build(cfg, seed):
             obs[nm] = b.stats
         else:
             lo, hi = cfg["svc_ms"][i]
-            b = Server(nm, concurrency=cfg["conc"][i], service_time=ConstantLatency((lo + hi) / 2000.0),
+            mean = (svc_set[i % len(svc_set)] if svc_set else (lo + hi) / 2.0) / 1000.0
+            b = Server(nm, concurrency=cfg["conc"][i], service_time=ConstantLatency(mean),
                        queue_capacity=cfg["qcap"] or None)
             obs[nm] = (lambda b=b: {"stats": stats_of(b)(), "acc": b.stats_accepted, "drop": b.stats_dropped,
                                     "depth": b.depth, "active": b.active_requests})
         backends.append(b)
         entities.append(b)
 
-    if cfg["backend_kind"] == "server":
-        # a library Server cannot "hang": take it down / up through the load balancers instead (below)
-        pass
+    def at(ms, etype, fn):
+        if ms / 1000.0 < end:
+            pre.append(Event.once(time=T(ms / 1000.0), event_type=etype, fn=fn))
 
-    lbs = []
-    for li, lc in enumerate(cfg["lbs"]):
+    def make_lb(name, hc_name, lc, members, leaf):
         strat = _strategy(lc)
-        lb = LoadBalancer(f"lb{li}", strategy=strat, on_no_backend=lc["on_no_backend"])
-        for b, w in zip(backends, lc["weights"]):
+        weights = (list(lc["weights"]) + [1] * len(members))[:len(members)]
+        if lc.get("init_backends"):
+            lb = LoadBalancer(name, backends=list(members), strategy=strat, on_no_backend=lc["on_no_backend"])
+        else:
+            lb = LoadBalancer(name, strategy=strat, on_no_backend=lc["on_no_backend"])
+        for b, w in zip(members, weights):
             lb.add_backend(b, weight=w)
-        lbs.append(lb)
         entities.append(lb)
         obs[lb.name] = stats_of(lb)
 
@@ -195,21 +255,24 @@ def build(cfg, seed):
                                   inf.consecutive_failures, inf.total_requests, inf.total_failures])
             if isinstance(strat, LeastResponseTime):
                 d["rt"] = [[b.name, strat.get_response_time(b)] for b in lb.all_backends]
+            if hasattr(strat, "get_weight"):
+                d["w"] = [[b.name, strat.get_weight(b)] for b in lb.all_backends]
             return d
 
         obs[lb.name + ".more"] = lb_more
         h = lc["health"]
         if h["enabled"]:
-            hc = HealthChecker(f"hc{li}", load_balancer=lb, interval=h["interval_ms"] / 1000.0,
+            kw = {"check_event_type": h["etype"]} if "etype" in h else {}
+            hc = HealthChecker(hc_name, load_balancer=lb, interval=h["interval_ms"] / 1000.0,
                                timeout=h["timeout_ms"] / 1000.0, healthy_threshold=h["healthy_thr"],
-                               unhealthy_threshold=h["unhealthy_thr"])
+                               unhealthy_threshold=h["unhealthy_thr"], **kw)
             entities.append(hc)
             pre.append(hc.start())
             obs[hc.name] = stats_of(hc)
 
             def hc_more(hc=hc):
                 out = []
-                for b in backends:
+                for b in members:
                     s = hc.get_backend_state(b)
                     out.append([b.name, s.consecutive_successes, s.consecutive_failures,
                                 s.last_check_time.nanoseconds if s.last_check_time is not None else None,
@@ -218,30 +281,45 @@ def build(cfg, seed):
 
             obs[hc.name + ".more"] = hc_more
             if h["stop_ms"]:
-                pre.append(Event.once(time=T(h["stop_ms"] / 1000.0), event_type=f"hc{li}.stop",
+                pre.append(Event.once(time=T(h["stop_ms"] / 1000.0), event_type=f"{hc_name}.stop",
                                       fn=lambda e, hc=hc: hc.stop()))
-        last = backends[-1]
+                if h.get("restart_ms"):
+                    # start() hands back the first cycle event of a new cycle chain
+                    at(h["stop_ms"] + h["restart_ms"], f"{hc_name}.restart", lambda e, hc=hc: hc.start())
+        last = members[-1]
         if lc["remove_ms"]:
-            pre.append(Event.once(time=T(lc["remove_ms"] / 1000.0), event_type=f"lb{li}.remove",
+            pre.append(Event.once(time=T(lc["remove_ms"] / 1000.0), event_type=f"{name}.remove",
                                   fn=lambda e, lb=lb, b=last: lb.remove_backend(b)))
             if lc["readd_ms"]:
-                pre.append(Event.once(time=T((lc["remove_ms"] + lc["readd_ms"]) / 1000.0), event_type=f"lb{li}.add",
-                                      fn=lambda e, lb=lb, b=last, w=lc["weights"][-1]: lb.add_backend(b, weight=w)))
+                pre.append(Event.once(time=T((lc["remove_ms"] + lc["readd_ms"]) / 1000.0), event_type=f"{name}.add",
+                                      fn=lambda e, lb=lb, b=last, w=weights[-1]: lb.add_backend(b, weight=w)))
         if lc["manual_ms"]:
-            pre.append(Event.once(time=T(lc["manual_ms"] / 1000.0), event_type=f"lb{li}.mark_unhealthy",
-                                  fn=lambda e, lb=lb, b=backends[0]: lb.mark_unhealthy(b)))
-            pre.append(Event.once(time=T(lc["manual_ms"] / 1000.0 + 0.25), event_type=f"lb{li}.mark_healthy",
-                                  fn=lambda e, lb=lb, b=backends[0]: lb.mark_healthy(b)))
-        if cfg["backend_kind"] == "server":
+            pre.append(Event.once(time=T(lc["manual_ms"] / 1000.0), event_type=f"{name}.mark_unhealthy",
+                                  fn=lambda e, lb=lb, b=members[0]: lb.mark_unhealthy(b)))
+            back = (lc["manual_ms"] + lc["manual_len_ms"]) / 1000.0 if "manual_len_ms" in lc \
+                else lc["manual_ms"] / 1000.0 + 0.25
+            pre.append(Event.once(time=T(back), event_type=f"{name}.mark_healthy",
+                                  fn=lambda e, lb=lb, b=members[0]: lb.mark_healthy(b)))
+        if lc.get("rr_reset_ms") and isinstance(strat, RoundRobin):
+            at(lc["rr_reset_ms"], f"{name}.rr_reset", lambda e, st=strat: st.reset())
+        for k, ms in enumerate(lc.get("fail_ms", [])):
+            at(ms, f"{name}.record_failure{k}", lambda e, lb=lb, b=members[0]: lb.record_failure(b))
+        if leaf and cfg["backend_kind"] == "server":
+            # a library Server cannot "hang": take it down / up through the load balancers instead
             for d in cfg["down"]:
-                pre.append(Event.once(time=T(d["from_ms"] / 1000.0), event_type=f"lb{li}.down",
+                pre.append(Event.once(time=T(d["from_ms"] / 1000.0), event_type=f"{name}.down",
                                       fn=lambda e, lb=lb, b=backends[d["backend"]]: lb.mark_unhealthy(b)))
                 up = (d["from_ms"] + d["len_ms"]) / 1000.0
                 if up < end:
-                    pre.append(Event.once(time=T(up), event_type=f"lb{li}.up",
+                    pre.append(Event.once(time=T(up), event_type=f"{name}.up",
                                           fn=lambda e, lb=lb, b=backends[d["backend"]]: lb.mark_healthy(b)))
+        return lb
 
-    if len(lbs) > 1:
+    lbs = [make_lb(f"lb{li}", f"hc{li}", lc, backends, True) for li, lc in enumerate(cfg["lbs"])]
+
+    if len(lbs) > 1 and cfg.get("tiered"):
+        entry = make_lb("front", "hc-front", cfg["front"], lbs, False)
+    elif len(lbs) > 1:
         entry = RandomRouter("router", targets=lbs)
         entities.append(entry)
         obs["router"] = (lambda r=entry: {"routed": r.stats_routed, "counts": dict(r.target_counts)})
@@ -255,12 +333,23 @@ def build(cfg, seed):
 
     sources = []
     stop = T(end - 0.5)
+    fields = ["client_id", "client_ip", "session_id", "user_id", "key"]
     for si, sc in enumerate(cfg["sources"]):
         head = direct if (direct is not None and si == len(cfg["sources"]) - 1) else entry
 
-        def ctx(time, count, _si=si, _k=sc["keys"]):
+        def ctx(time, count, _si=si, _k=sc["keys"], _sc=sc):
             key = f"user-{(count * 7 + _si * 3) % _k}"
-            md = {"client_id": key} if _si % 2 == 0 else {"session_id": f"sess-{count % _k}", "key": f"k{count % 5}"}
+            if "key_field" not in _sc:                       # corpus cfgs of the old shape
+                md = {"client_id": key} if _si % 2 == 0 else {"session_id": f"sess-{count % _k}",
+                                                              "key": f"k{count % 5}"}
+                return {"created_at": time, "request_id": count, "key": key, "metadata": md}
+            kf = _sc["key_field"]
+            if kf == "mixed":
+                kf = fields[count % len(fields)]
+            md = {kf: key}
+            if _sc["nokey_every"] and count % _sc["nokey_every"] == 0:
+                # no routing key at all: hash strategies fall back to round robin
+                return {"created_at": time, "request_id": count, "metadata": {}}
             return {"created_at": time, "request_id": count, "key": key, "metadata": md}
 
         mk = Source.poisson if sc["poisson"] else Source.constant
@@ -268,6 +357,13 @@ def build(cfg, seed):
                  event_provider=SimpleEventProvider(head, f"Req{si}", stop, context_fn=ctx))
         sources.append(src)
         obs[src.name] = (lambda s=src: s.generated_count)
+        for bi, (t_ms, nb) in enumerate(sc.get("bursts", [])):
+            if t_ms / 1000.0 >= end - 0.5:
+                continue
+            for j in range(nb):
+                t = T(t_ms / 1000.0)
+                pre.append(Event(time=t, event_type=f"Req{si}", target=head,
+                                 context=ctx(t, 100000 + bi * 1000 + j)))
 
     sim = Simulation(end_time=T(end), sources=sources, entities=entities)
     for e in pre:
